@@ -197,6 +197,26 @@ def c12(tier):
     return runs
 
 
+def c19(tier):
+    q = tier == "quick"
+    runs = [dict(harness="verifHarness_C19", args=[0, 1, 1, 0, 2 if q else 3]),   # symbolic presence bits, budget
+            dict(harness="verifHarness_C19", args=[0, 1, 1, 1, 0]),                # everything present
+            dict(harness="verifHarness_C19", args=[0, 1, 2, 0, 2 if q else 3])]    # children with their own children
+    runs += fam(19, tier, cut=False, budget=1 if q else 2)
+    return runs
+
+
+def c17(tier):
+    q = tier == "quick"
+    runs = [dict(harness="verifHarness_C17", args=[0, 1, 1, 0, 2 if q else 3]),
+            dict(harness="verifHarness_C17", args=[0, 1, 1, 1, 0]),
+            dict(harness="verifHarness_C17", args=[0, 1, 2, 1, 0])]
+    if not q:
+        runs.append(dict(harness="verifHarness_C17", args=[0, 1, 2, 0, 3]))
+    runs += fam(17, tier, cut=False, budget=1 if q else 2)
+    return runs
+
+
 def c10(tier):
     runs = s1_parser("verifHarness_C10", "C10/bad", tier, sig_extra=False)
     return runs + s2_errors(10, tier) + fam_mut(10, tier)
@@ -283,6 +303,15 @@ PROPS = {
                 bounds={"quick": "S1: all byte strings of length <= 2 on all entry points; S2: recovery soups of 3 slots over a 24-entry vocabulary in expression, type, query and statement context (2 slots after 'SELECT ' and inside CAST(a AS ...)); operand x operator x operand matrix",
                         "thorough": "S1: length <= 3; S2: soups of 4 slots"},
                 outside="longer inputs; Bad nodes only reachable through constructs outside the vocabularies"),
+    "C17": dict(level="model_checking", runs=cutpanics(c17), reach=["C17/ok"],
+                bounds={"quick": "every node type (generated builders from go/types): children present/absent by symbolic bits with <= 2 present, and all children present (slices of 2) at depth 1 and 2; pruning at every node index, Inspect pruning, Preorder stop after every k; plus the trees of the 23 sentence families (<= 1 deviation)",
+                        "thorough": "<= 3 present children, depth 2; families with <= 2 deviations"},
+                outside="trees deeper than the bounds that are not family instances"),
+    "C19": dict(level="translation_validation", runs=cutpanics(c19), reach=["C19/checked", "C19/parsed"],
+                programs=lambda outs: 264,
+                bounds={"quick": "every node type: all position fields symbolic 64-bit (any value, negative = invalid), booleans symbolic, children absent/present by symbolic bits (<= 2 present; and all present), children built to depth 1 and 2, slices 0..2, strings of length 0/1/3; plus every node of the 23 sentence families (<= 1 deviation) on parser output",
+                        "thorough": "<= 3 present children; families with <= 2 deviations"},
+                outside="byte-for-byte identity of pos.go / walk_internal.go with the generators' output and agreement of the reflective interpreter poslang.EvalPos are not decided by this technique (DESIGN.md section 8)"),
     "C20": dict(level="model_checking", runs=cutpanics(c20),
                 bounds={"quick": "all buffers of <= 5 bytes x all pairs 0<=pos<=end<=len; error prefix for all inputs of <= 2 bytes on every Parse* entry",
                         "thorough": "all buffers of <= 7 bytes x all pairs; error prefix for all inputs of <= 3 bytes"},
